@@ -488,4 +488,57 @@ theorem BShape.replace {c d : Cfg} (h : BShape c) {x y : Nat × EvKind} (hx : x 
   · intro p1 hp1 p2 hp2 f1 s1 st1 o1 f2 s2 st2 o2 h1 h2
     exact h.reone p1 (hre p1 hp1 f1 s1 st1 o1 h1).1 p2 (hre p2 hp2 f2 s2 st2 o2 h2).1 f1 s1 st1 o1 f2 s2 st2 o2 h1 h2
 
+/-- the fan-out state is launched (attempt `f.jid = c.nextJ`, nothing of it on record): the slots of the first batch get their
+events, which are then the whole queue -/
+theorem BShape.first {c d : Cfg} {f : Frame} (hbj : ∀ b ∈ c.batches, b.1 < c.nextJ) (hj : f.jid = c.nextJ) (hw : 0 < f.width)
+    (hnews : ∀ p ∈ evK d, ∃ i, i < f.width ∧ i / f.mc = 0 ∧ ∃ t, p.2 = .visit t [{ f with idx := i }] false none)
+    (hcov : ∀ i, i < f.width → i / f.mc = 0 → ∃ p ∈ evK d, ∃ t, p.2 = .visit t [{ f with idx := i }] false none)
+    (hb : d.batches = c.batches) (hn : d.nextJ = c.nextJ + 1) : BShape d := by
+  have hnoJ : ∀ s, (f.jid, s) ∉ c.batches := by
+    intro s hs
+    have := hbj _ hs
+    simp only [hj] at this; omega
+  have hbr : ∀ p ∈ evK d, ∀ g, brEv p g → ∃ i, i < f.width ∧ i / f.mc = 0 ∧ g = { f with idx := i } := by
+    intro p hp g hg
+    obtain ⟨i, hi, hb', t, hk⟩ := hnews p hp
+    refine ⟨i, hi, hb', ?_⟩
+    simp only [brEv, hk, evStack, List.cons.injEq, and_true] at hg
+    exact hg.symm
+  have hre : ∀ p ∈ evK d, ∀ g s st o, p.2 ≠ .reenter g s st o := by
+    intro p hp g s st o hk
+    obtain ⟨i, _, _, t, hk'⟩ := hnews p hp
+    rw [hk'] at hk; cases hk
+  have hhas : ∀ i, i < f.width → i / f.mc = 0 → ∃ p' ∈ evK d, ∃ f', brEv p' f' ∧ f'.idx = i := by
+    intro i hi hb'
+    obtain ⟨p', hp', t, hk⟩ := hcov i hi hb'
+    exact ⟨p', hp', { f with idx := i }, by simp [brEv, hk, evStack], rfl⟩
+  constructor
+  · intro p hp g hg i hi hb'
+    obtain ⟨i0, _, h0, rfl⟩ := hbr p hp g hg
+    exact hhas i hi (by simpa [h0] using hb')
+  · intro p hp g hg
+    exact hhas 0 hw (Nat.zero_div _)
+  · intro p1 hp1 p2 hp2 g1 g2 hg1 hg2
+    obtain ⟨_, _, _, rfl⟩ := hbr p1 hp1 g1 hg1
+    obtain ⟨_, _, _, rfl⟩ := hbr p2 hp2 g2 hg2
+    rfl
+  · intro p hp g s st o hk; exact absurd hk (hre p hp g s st o)
+  · intro p hp g hg s hs
+    obtain ⟨_, _, _, rfl⟩ := hbr p hp g hg
+    rw [hb] at hs; exact absurd hs (hnoJ s)
+  · intro p hp g hg hne
+    obtain ⟨i, _, h0, rfl⟩ := hbr p hp g hg
+    exact absurd h0 hne
+  · intro p hp g hg s s' hs
+    obtain ⟨_, _, _, rfl⟩ := hbr p hp g hg
+    rw [hb] at hs; exact absurd hs (hnoJ s)
+  · intro p hp g hg s hs
+    obtain ⟨_, _, _, rfl⟩ := hbr p hp g hg
+    rw [hb] at hs; exact absurd hs (hnoJ s)
+  · intro b hb'
+    rw [hb] at hb'; rw [hn]
+    have := hbj b hb'; omega
+  · intro p1 hp1 _ _ f1 s1 st1 o1 _ _ _ _ h1 _
+    exact absurd h1 (hre p1 hp1 f1 s1 st1 o1)
+
 end Asl.Crash
